@@ -42,15 +42,19 @@ def run(ctx):
         cases = sel
     ctx.extra["histories_replayed"] = len(cases)
     sim3 = []
+    seen = set()
+    sims = [("XrefHistory_sim6.cfg", 150 if q else 1500, 9)]       # long histories: up to 6 revisions of 3 objects
     if not q:
-        s = ctx.tlc("XrefHistoryMC", "XrefHistory_sim3.cfg", workers=1, simulate=3000, depth=6, collect=True, count=False, timeout=1800)
-        seen = set()
+        sims.append(("XrefHistory_sim3.cfg", 3000, 6))
+    for cfg, num, depth in sims:
+        s = ctx.tlc("XrefHistoryMC", cfg, workers=1, simulate=num, depth=depth, collect=True, count=False, timeout=1800)
         for c in s["cases"]:
             k = vlib.json.dumps(c)
             if k not in seen:
                 seen.add(k)
                 sim3.append(c)
-        ctx.extra["histories_simulated_n3"] = len(sim3)
+    ctx.extra["histories_simulated_n3"] = len(sim3)
+    ctx.extra["histories_simulated_4plus_revisions"] = sum(1 for c in sim3 if len(c["revs"]) >= 4)
     ctx.sample(cases[len(cases) // 3])
     ctx.sample(cases[-1])
     res = absorb(ctx, ctx.run_driver(["c04", "replay"], cases))
